@@ -728,6 +728,9 @@ func cafsProp(prop string) propFn {
 					content = append(append([]byte(nil), p...), r.Bytes(r.Intn(L+2))...)
 				}
 			}
+			if prop == "C02" && (i == 3 || i == 4) { // the empty content, twice in a row, into the shared store
+				content = nil
+			}
 			long := (prop == "C02" || prop == "C01") && i%6 == 5
 			if long { // many leaves, kept in flight by slow blob writes
 				content = r.Bytes(L*r.Range(17, 40) + r.Intn(L))
